@@ -162,6 +162,39 @@ impl Monitor for C02 {
                 }
             }
         }
+        // one more variant: the base problem on a solver that has solved an unrelated problem (two
+        // arbitrary version sets of the universe) before - the verdict may not depend on that
+        if h % 3 == 1 && !c.u.vsets.is_empty() {
+            let nv = c.u.vsets.len() as u64;
+            let other = Prob { reqs: vec![Req::Single((h / 7 % nv) as u32), Req::Single((h / 97 % nv) as u32)], cons: vec![], soft: vec![] };
+            let bu = Rc::new(c.u.clone());
+            let mut sess = crate::run::Session::new(bu.clone(), &SolveOpts::default());
+            let _ = sess.solve(&other);
+            ctx.rep.evaluations += 1;
+            let out = sess.solve(&c.p);
+            let what = format!("reused solver (first: {})", problem_text(&c.u, &other));
+            match &out {
+                Outcome::Ok(sol) => {
+                    verdicts.push((what.clone(), true));
+                    ctx.rep.count("verdicts-on-a-reused-solver");
+                    for e in rf.check(&c.p, sol, &[]) {
+                        ctx.violation("ok-but-invalid", format!("{what}: {e}"));
+                    }
+                    if let Some((false, _)) = &expect {
+                        ctx.violation("ok-but-no-solution-exists", format!("variant '{what}' returned {:?}", sol));
+                    }
+                }
+                Outcome::Unsat(_) => {
+                    verdicts.push((what.clone(), false));
+                    ctx.rep.count("verdicts-on-a-reused-solver");
+                    if let Some((true, w)) = &expect {
+                        ctx.violation("unsolvable-but-solution-exists", format!("variant '{what}' reported Unsolvable; witness on base universe: {:?}", w.iter().map(|&s| c.u.solv_label(s)).collect::<Vec<_>>()));
+                    }
+                    certify_unsat(&sess, &rf, &c.p, ctx, &what);
+                }
+                _ => ctx.rep.count("not-a-verdict (see C04/C13)"),
+            }
+        }
         if let Some((first, rest)) = verdicts.split_first() {
             for v in rest {
                 if v.1 != first.1 {
